@@ -338,5 +338,26 @@ func extractC18() *lean {
 		}
 	}
 	l.def("deactivationConds", "List String", leanStrList(deact), deact)
+	// didsubject/resolver.go: what Resolve returns when the store lookup fails (the chain only moves on for ErrNotFound)
+	var errReturns []string
+	for _, d := range ds.Decls {
+		if fd, ok := d.(*ast.FuncDecl); ok && fd.Name.Name == "Resolve" {
+			for _, st := range fd.Body.List {
+				is, ok := st.(*ast.IfStmt)
+				if !ok || condString(is.Cond) != "err != nil" {
+					continue
+				}
+				ast.Inspect(is.Body, func(n ast.Node) bool {
+					if r, ok := n.(*ast.ReturnStmt); ok && len(r.Results) == 3 {
+						g := ""
+						errReturns = append(errReturns, g+condString(r.Results[2]))
+					}
+					return true
+				})
+				break
+			}
+		}
+	}
+	l.def("localResolverErrorReturns", "List String", leanStrList(errReturns), errReturns)
 	return l
 }
